@@ -135,12 +135,23 @@ def make_test(spec):
     return testtools.PlaceHolder(spec["id"])
 
 
+_SHARED = {"cell": b"", "content": None}
+
+
 def make_details(items):
     from testtools.content import Content
     from testtools.content_type import ContentType
     d = {}
     for name, text, ctype in items:
-        if ctype == "text":
+        if ctype == "shared":
+            # ONE lazy Content object handed over with every test that has such a detail (a log buffer attached to
+            # each outcome): what counts is what it yields when that outcome is reported
+            _SHARED["cell"] = text.encode("utf8")
+            if _SHARED["content"] is None:
+                _SHARED["content"] = Content(ContentType("text", "plain", {"charset": "utf8"}),
+                                             lambda: [_SHARED["cell"]])
+            d[name] = _SHARED["content"]
+        elif ctype == "text":
             d[name] = Content(ContentType("text", "plain", {"charset": "utf8"}),
                               lambda t=text: [t.encode("utf8")])
         elif ctype == "text-split":
